@@ -477,6 +477,35 @@ def rule_r4(ctx):
             ctx.check("R4", f"set_base_dir: traversal called with {fl}=True", ok, sb, c,
                       f"set_base_dir leaves `{fl}` at its default: tensors in node attributes are not visited and keep base_dir ''",
                       how="flag argument is the constant True", construct=f"{fl} not True")
+    # (d) every external tensor the traversal yields gets the base directory: the assignment is guarded by nothing but the
+    #     class test - no property of the tensor (an absolute location, a size, a name) exempts it
+    stores = [n for n in own_nodes(sb.node) if isinstance(n, ast.Assign) and any(isinstance(t, ast.Attribute) and t.attr in ("base_dir", "_base_dir") for t in n.targets)]
+    ctx.require(bool(stores), "set_base_dir: assignment of the base directory not found")
+    for st in stores:
+        bad = None
+        child, p_ = st, getattr(st, "_parent", None)
+        while p_ is not None and p_ is not sb.node:
+            if isinstance(p_, (ast.If, ast.While, ast.Try, ast.IfExp)):
+                t = getattr(p_, "test", None)
+                class_test = isinstance(t, ast.Call) and dotted_of(t.func) == "isinstance" and "ExternalTensor" in norm(t)
+                if not class_test:
+                    bad = bad or p_
+            # `if …: continue` before the assignment in the same block
+            for fld in ("body", "orelse"):
+                b = getattr(p_, fld, None)
+                if isinstance(b, list) and any(child is x for x in b):
+                    for x in b[: next(i for i, y in enumerate(b) if y is child)]:
+                        if isinstance(x, ast.If) and any(isinstance(y, (ast.Continue, ast.Break, ast.Return)) for y in ast.walk(x)):
+                            t = x.test
+                            neg_class = isinstance(t, ast.UnaryOp) and isinstance(t.op, ast.Not) and isinstance(t.operand, ast.Call) \
+                                and dotted_of(t.operand.func) == "isinstance" and "ExternalTensor" in norm(t)
+                            if not neg_class:
+                                bad = bad or x
+            child, p_ = p_, getattr(p_, "_parent", None)
+        ctx.check("R4", "set_base_dir: every external tensor of the traversal is given the base directory", bad is None, sb, bad if bad is not None else st,
+                  f"`{norm(getattr(bad, 'test', bad))[:70] if bad is not None else ''}` exempts some external tensors from `{norm(st)[:40]}`: they keep base_dir '' after load(), "
+                  "and _check_path_containment returns early for an empty base - such a tensor (e.g. one with an absolute location) is read from anywhere",
+                  how="tests and early exits between the traversal loop and the assignment: only isinstance(<t>, ExternalTensor)", construct="external tensors exempted from set_base_dir")
     # (b) traversal completeness
     gp = at.params[0]
     node_loops = [n for n in own_nodes(at.node) if isinstance(n, ast.For) and any(
